@@ -341,4 +341,21 @@ example : holdsC02 (C05.runObs { mac := [2, 0, 0, 0, 0, 1], mtu := 576 } {} { fa
     [[255,255,255,255,255,255, 2,0,0,0,0,7, 0x88,0xd9, 1,0,0,0, 255,255,255,255,255,255, 2,0,0,0,0,7, 0,0, 0,1,0,0]]) = true := by
   decide
 
+
+/-- THE HISTORY THEOREM with the attributes (MTU included) changing from frame to frame, every fault schedule -/
+theorem history_varying :
+    ∀ (items : List (Cfg × Glob × List Nat)) (w : World) (st : St),
+      (∀ it ∈ items, CfgOk it.1 ∧ it.1.failMtu = false ∧ it.1.failMac = false ∧ ImgOk it.2.2) → St.Inv st →
+      holdsC02 (C05.runObsV w st items) = true := by
+  intro items
+  induction items with
+  | nil => intro _ _ _ _; rfl
+  | cons it rest ih =>
+    intro w st hitems hi
+    obtain ⟨c, g, img⟩ := it
+    obtain ⟨hc, hm, hmac, him⟩ := hitems (c, g, img) (by simp)
+    simp only [C05.runObsV, holdsC02, List.all_cons, Bool.and_eq_true]
+    exact ⟨step_holds c g w st img hc hm hmac hi him,
+      ih _ _ (fun i h => hitems i (by simp [h])) (parseFrameSt_inv c g w st img hi him)⟩
+
 end LLTD.C02H
